@@ -173,6 +173,7 @@ func runC10A(c retainCase) (bool, []string, error) {
 func drawRetain(t *rapid.T) retainCase {
 	var c retainCase
 	c.Enc = drawEncCase(t)
+	c.Enc.Repeat = 0
 	// more records and small blocks: the interesting histories need several blocks
 	n := gen.UniformRange(t, "nrecords2", 2, 10)
 	c.Enc.Records = gen.Records(t, c.Enc.Type, n, gen.ValueOpts{MaxElems: 3})
